@@ -92,6 +92,15 @@ Theorem C15_election_safety : forall c0 c1, (c0 <> [] \/ c1 <> []) ->
 Proof. exact election_safety. Qed.
 Print Assumptions C15_election_safety.
 
+(* ... and over the whole run: a term has at most one leader EVER, across crashes, restarts
+   and re-elections *)
+Theorem C15_election_safety_forever : forall c0 c1, (c0 <> [] \/ c1 <> []) ->
+  forall x x', xreachable c0 c1 x -> xsteps c0 c1 x x' ->
+  forall a b, n_role (x_nodes x a) = Leader -> n_role (x_nodes x' b) = Leader ->
+    n_term (x_nodes x a) = n_term (x_nodes x' b) -> a = b.
+Proof. exact election_safety_forever. Qed.
+Print Assumptions C15_election_safety_forever.
+
 (* two logs holding an entry of the same term at the same index are identical up to it *)
 Theorem C15_log_matching : forall c0 c1, (c0 <> [] \/ c1 <> []) ->
   forall x, xreachable c0 c1 x ->
